@@ -1248,6 +1248,59 @@ def propagate_param_copies(tree):
                 i += 1
 
 
+def flag_loops(tree):
+    """``F = False`` directly followed by ``while not F: BODY; F = <expr>`` (F is assigned nowhere
+    else in the loop, not read in BODY or after the loop, no else clause, no continue in BODY) is
+    ``while True: BODY; if <expr>: break``."""
+    for fn in [n for n in ast.walk(tree) if isinstance(n, (ast.FunctionDef, ast.AsyncFunctionDef))]:
+        for blk, _owner in list(_fn_blocks(fn)):
+            i = 0
+            while i + 1 < len(blk):
+                a, lp = blk[i], blk[i + 1]
+                if isinstance(a, ast.Assign) and len(a.targets) == 1 and isinstance(a.targets[0], ast.Name) \
+                        and isinstance(a.value, ast.Constant) and a.value.value is False and \
+                        isinstance(lp, ast.While) and not lp.orelse and \
+                        isinstance(lp.test, ast.UnaryOp) and isinstance(lp.test.op, ast.Not) and \
+                        isinstance(lp.test.operand, ast.Name) and lp.test.operand.id == a.targets[0].id \
+                        and lp.body:
+                    F = a.targets[0].id
+                    last = lp.body[-1]
+                    uses = [n for n in ast.walk(fn) if isinstance(n, ast.Name) and n.id == F]
+                    ok = isinstance(last, ast.Assign) and len(last.targets) == 1 and \
+                        isinstance(last.targets[0], ast.Name) and last.targets[0].id == F and \
+                        len(uses) == 3 and \
+                        not any(isinstance(n, ast.Continue) for s_ in lp.body for n in ast.walk(s_))
+                    if ok:
+                        brk = ast.If(test=last.value, body=[ast.Break()], orelse=[])
+                        lp.body[-1] = ast.copy_location(brk, last)
+                        lp.test = ast.copy_location(ast.Constant(value=True), lp.test)
+                        del blk[i]
+                        ast.fix_missing_locations(fn)
+                        continue
+                i += 1
+
+
+def forward_adjacent_temp(tree):
+    """``x = E`` directly followed by ``T = x`` (T any target) where x is a plain local with no other
+    use at all: ``T = E``."""
+    for fn in [n for n in ast.walk(tree) if isinstance(n, (ast.FunctionDef, ast.AsyncFunctionDef))]:
+        params = {a.arg for a in ast.walk(fn) if isinstance(a, ast.arg)}
+        for blk, _owner in list(_fn_blocks(fn)):
+            i = 0
+            while i + 1 < len(blk):
+                a, b = blk[i], blk[i + 1]
+                if isinstance(a, ast.Assign) and len(a.targets) == 1 and isinstance(a.targets[0], ast.Name) \
+                        and isinstance(b, ast.Assign) and isinstance(b.value, ast.Name) and \
+                        b.value.id == a.targets[0].id and a.targets[0].id not in params:
+                    x = a.targets[0].id
+                    uses = [n for n in ast.walk(fn) if isinstance(n, ast.Name) and n.id == x]
+                    if len(uses) == 2:
+                        b.value = a.value
+                        del blk[i]
+                        continue
+                i += 1
+
+
 def canonicalise(tree, modname, log=None):
     """rename, in place, the locals that play the roles of TABLE to their canonical names"""
     from .deiter import iterator_stack_to_recursion
@@ -1261,7 +1314,9 @@ def canonicalise(tree, modname, log=None):
     split_parallel_assign(tree)
     unzip_pairs(tree)
     loops_to_comprehensions(tree)
+    forward_adjacent_temp(tree)
     countdown_loops(tree)
+    flag_loops(tree)
     index_walk_to_queue(tree)
     loop_var_indexing_to_unpack(tree)
     split_keyed_lists(tree)
